@@ -146,7 +146,13 @@ Definition k5_routes : list (string * string) :=
   [("LockGuard", "DerefMut"); ("LockGuard", "AsMut"); ("PoisonGuard", "AsMut"); ("PoisonRef", "DerefMut"); ("PoisonRef", "AsMut")].
 Definition k5 : bool := forallb (fun x => negb (has_impl (fst x) (snd x))) k5_routes.
 
-Definition wf_key_known : bool := k1 && k2 && k3 && k4.        (* everything but the known finding F4 *)
+(* K6: a hold that is not tied to a key (the *Ref guards inside collection / poison guards) cannot be duplicated or
+   conjured: a copy would outlive the keyed guard it came from, and the key would come back while the hold lives *)
+Definition hold_carriers : list string := ["MutexRef"; "RwLockReadRef"; "RwLockWriteRef"; "PoisonRef"; "LockGuard"; "PoisonGuard"].
+Definition k6 : bool :=
+  forallb (fun c => negb (has_impl c "Clone") && negb (has_impl c "Copy") && negb (has_impl c "Default")) hold_carriers.
+
+Definition wf_key_known : bool := k1 && k2 && k3 && k4 && k6.  (* everything but the known finding F4 *)
 Definition wf_key : bool := wf_key_known && k5.
 
 (* ---------------------------------------------------------------- C15: data confinement, as decidable conditions *)
